@@ -509,3 +509,150 @@ def cross_skeletons(max_bodies: int, rng: random.Random | None = None, sample: i
             except Invalid:
                 continue
             yield {"tree": tree, "ctrl": ci, "consumers": [u1, u2], "value_scope": vscope, "unused": sorted(unused)}, sc
+
+
+# --------------------------------------------------------------------------- round 6: inputs read only deep down
+
+
+def deep_input_scripts():
+    """Programs whose main inputs are read ONLY at nesting depth >= 2 (or at a chosen set of depths):
+    a chain of n = 2, 3 nested If/Loop bodies; `x` (id 0) is read exactly in the scopes of `xlevels`
+    (never in main), `c` (id 1) is the condition of the If created at level `clevel` (or of none: then it
+    is an unused model input). Everything else a scope needs is made locally (fresh constants, a
+    constant trip count), so the main graph itself reads no argument. Built with an argument list, with
+    none (`drop_unused_inputs=True`: the arguments are what the traversal finds through the bodies) and
+    through the low-level API."""
+    for n in (2, 3):
+        for kinds in itertools.product(("if", "loop"), repeat=n):
+            levels = list(range(1, n + 1))
+            for r in range(1, n + 1):
+                for xl in itertools.combinations(levels, r):
+                    if max(xl) < 2:
+                        continue
+                    cl_opts = [None] + [k for k in range(n) if kinds[k] == "if"]
+                    for clevel in cl_opts:
+                        yield ({"kinds": list(kinds), "x_read_at_depths": list(xl), "c_read_at_depth": clevel},
+                               _deep_script(kinds, set(xl), clevel))
+
+
+def _deep_script(kinds, xlevels, clevel):
+    n = len(kinds)
+    counter = [2]
+
+    def fresh():
+        counter[0] += 1
+        return counter[0] - 1
+
+    def scope(level, base):
+        block, refs = [], []
+        if level in xlevels:
+            block.append(["val", "neg", [0]])
+            refs.append(fresh())
+        if level < n:
+            if kinds[level] == "if":
+                if clevel == level:
+                    cond = 1
+                else:
+                    block.append(["val", "pconst", [], True])
+                    cond = fresh()
+                eb = [["val", "const", []]]
+                er = [fresh()]
+                tb, tr = scope(level + 1, None)
+                block.append(["if", cond, eb, er, tb, tr])
+            else:
+                block.append(["val", "const", []])
+                init = fresh()
+                block.append(["val", "consti", [], 3])
+                m = fresh()
+                a0 = counter[0]
+                counter[0] += 3
+                bb, br = scope(level + 1, a0 + 2)
+                block.append(["loop", [init], 3, bb, [a0 + 1] + br, {"m": m}])
+            refs.append(fresh())
+        if base is not None:
+            refs.append(base)
+        if not refs:
+            block.append(["val", "const", []])
+            refs.append(fresh())
+        block.append(["val", "sum", refs])
+        return block, [fresh()]
+
+    main, res = scope(0, None)
+    return {"main": main, "res": res}
+
+
+def wide_script(width: int = 12, nested: bool = True):
+    """A Loop with `width` carried values (callback-argument list of length width + 2 >= 11: argument
+    names a2 .. a15 do not sort like their ids), a Sum over all of them, and - nested - an If inside the
+    body that reads the LAST carried value and a main value."""
+    counter = [2]
+
+    def fresh():
+        counter[0] += 1
+        return counter[0] - 1
+
+    main = []
+    inits = []
+    for _ in range(width):
+        main.append(["val", "neg", [0]])
+        inits.append(fresh())
+    main.append(["val", "neg", [0]])
+    shared = fresh()
+    main.append(["val", "consti", [], 3])
+    m = fresh()
+    a0 = counter[0]
+    counter[0] += 2 + width
+    carried = [a0 + 2 + k for k in range(width)]
+    body = []
+    outs = []
+    for k, a in enumerate(carried):
+        body.append(["val", "add", [a, carried[(k + 1) % width]]])
+        outs.append(fresh())
+    if nested:
+        eb = [["val", "neg", [carried[-1]]]]
+        er = [fresh()]
+        tb = [["val", "add", [carried[-1], shared]]]
+        tr = [fresh()]
+        body.append(["if", 1, eb, er, tb, tr])
+        outs[-1] = fresh()
+    body.append(["val", "sum", outs + [shared]])
+    outs[0] = fresh()
+    main.append(["loop", inits, 2 + width, body, [a0 + 1] + outs, {"m": m}])
+    lo = fresh()
+    main.append(["val", "sum", [lo, shared] + inits[:10]])
+    return {"main": main, "res": [fresh()]}
+
+
+def long_chain_script(length: int = 1100, outer: int | None = None):
+    """Dependency chains of > 1000 operators: one in the main graph read inside a Loop body (it must
+    stay in main), one inside the body starting at the carried argument (it must stay in the body), one
+    in main that nothing requested reads (never emitted)."""
+    counter = [2]
+
+    def fresh():
+        counter[0] += 1
+        return counter[0] - 1
+
+    main = []
+    prev = 0
+    for _ in range(length if outer is None else outer):
+        main.append(["val", "neg", [prev]])
+        prev = fresh()
+    outer_chain = prev
+    prev = 0
+    for _ in range((length if outer is None else outer) // 4):
+        main.append(["val", "neg", [prev]])
+        prev = fresh()
+    main.append(["val", "consti", [], 1])
+    m = fresh()
+    a0 = counter[0]
+    counter[0] += 3
+    body = []
+    prev = a0 + 2
+    for _ in range(length):
+        body.append(["val", "neg", [prev]])
+        prev = fresh()
+    body.append(["val", "add", [prev, outer_chain]])
+    r = fresh()
+    main.append(["loop", [0], 3, body, [a0 + 1, r], {"m": m}])
+    return {"main": main, "res": [fresh()]}
